@@ -92,12 +92,12 @@ def gen_cases(tier, seed):
         return tmpl, calendar(rng, ndays, kind)
 
     # general data, exact solve
-    for _ in range(60 if quick else 400):
+    for _ in range(60 if quick else 250):
         nobs = rng.randint(5, 12 if quick else 40)
         spacing = rng.choice([5, 8, 10, 16, 0])
         while True:
             tmpl, labels = build(nobs, spacing, rng.choice(["dekad", "pentad", "month"]), rng.choice([0, 0, 2, 7]), rng.choice([0, 0, 3, 9]))
-            if len(tmpl) <= (100 if quick else 400):
+            if len(tmpl) <= (100 if quick else 250):
                 break
             nobs = max(5, nobs - 3)
         kind = rng.choice(["noise", "smooth", "zeros", "small"])
@@ -154,7 +154,7 @@ def run(tier, seed):
     rep.extra.update(
         distinct_nontrivial=len({json.dumps([c["xi"], c["tmpl"], c["labels"]]) for c in cases}),
         exhaustive=False,
-        rule="general int16 data with exact daily solve (daily length <= 100 quick / 400 thorough), regular 5/8/10/16-day and irregular marks, "
+        rule="general int16 data with exact daily solve (daily length <= 100 quick / 250 thorough), regular 5/8/10/16-day and irregular marks, "
         "dekad/pentad/month labels from the real calendar, leading/trailing unmarked days; constant and linear-in-day data up to daily length 4000 by certificate",
         max_daily_len=max(len(c["tmpl"]) for c in cases),
     )
